@@ -12,73 +12,96 @@ import (
 	"verif/vx"
 )
 
+// c10arena lays all arguments out inside one backing array: every argument is a sub-slice whose capacity extends over
+// whatever follows it (as with fields of one serialized record), separated by canary bytes. After each call the whole
+// array must be unchanged, so a write into the spare capacity of an input (append on an argument) is seen.
+type c10arena struct {
+	buf  []byte
+	snap []byte
+}
+
+func (a *c10arena) add(b []byte) []byte {
+	a.buf = append(a.buf, bytes.Repeat([]byte{0xC3}, 8)...)
+	off := len(a.buf)
+	a.buf = append(a.buf, b...)
+	return a.buf[off : off+len(b)] // capacity deliberately runs on into the following fields
+}
+
 func TestVX_C10_SM2(t *testing.T) {
-	r := vx.Begin("C10", "inputs-sm2", "every SM2 entry point (DerivePublic, CheckOnCurve, TestPrivateKey, ZA, Sign, SignZa, SignHashed, Verify, VerifyZa, VerifyHashed) called twice on the same buffers with every argument snapshotted before and compared after; both calls must agree; over keys {1, n-2, seeded x2} x message/id lengths {0,1,55,64,200}")
+	r := vx.Begin("C10", "inputs-sm2", "every SM2 entry point (DerivePublic, CheckOnCurve, TestPrivateKey, ZA, Sign, SignZa, SignHashed, Verify, VerifyZa, VerifyHashed) called twice on the same buffers; the arguments live in one backing array in several field orders (each argument's capacity runs on into the next fields, canaries in between), and the whole array is compared before/after, so writes into an argument or into its spare capacity are seen; both calls must agree; over keys {1, seeded x3} x message/id lengths {0,1,55,64,200}")
 	defer r.End()
 	selfCheck()
-	for ki, d := range [][]byte{b32(bigOne), b32(modN(bi(vx.Fill("c10d0", 32)))), b32(modN(bi(vx.Fill("c10d1", 32)))), b32(sm2ref.N)[:0]} {
-		if len(d) == 0 {
-			d = b32(modN(bi(vx.Fill("c10d2", 32))))
-		}
-		px, py := sm2ref.Pub(bi(d))
+	orders := [][]string{
+		{"priv", "pubx", "puby", "id", "msg", "za", "e", "r", "s"},
+		{"pubx", "r", "s", "puby", "e", "za", "msg", "id", "priv"},
+		{"s", "r", "e", "za", "puby", "pubx", "priv", "msg", "id"},
+	}
+	for ki, d0 := range [][]byte{b32(bigOne), b32(modN(bi(vx.Fill("c10d0", 32)))), b32(modN(bi(vx.Fill("c10d1", 32)))), b32(modN(bi(vx.Fill("c10d2", 32))))} {
+		px0, py0 := sm2ref.Pub(bi(d0))
 		for _, l := range []int{0, 1, 55, 64, 200} {
-			id := vx.Fill("c10id", l)
-			msg := vx.Fill("c10msg", l)
-			k := b32(modN(bi(vx.Fill(fmt.Sprintf("c10k%d", l), 32))))
-			za, _ := sm2ref.ZA(id, px, py)
-			e := sm2ref.E(za[:], msg)
-			sg, err := sm2ref.Sign(stream(k), bi(d), e[:])
-			if err != nil {
-				continue
-			}
-			type arg struct {
-				name string
-				b    []byte
-			}
-			args := []arg{{"priv", d}, {"pubx", px}, {"puby", py}, {"id", id}, {"msg", msg}, {"za", za[:]}, {"e", e[:]}, {"r", sg.R}, {"s", sg.S}}
-			snap := map[string][]byte{}
-			for _, a := range args {
-				snap[a.name] = append([]byte{}, a.b...)
-			}
-			calls := map[string]func() string{
-				"DerivePublic":   func() string { x, y, e := sm2.DerivePublic(d); return fmt.Sprintf("%x %x %v", x, y, e) },
-				"CheckOnCurve":   func() string { return fmt.Sprint(sm2.CheckOnCurve(px, py)) },
-				"TestPrivateKey": func() string { return fmt.Sprint(sm2.TestPrivateKey(d)) },
-				"ZA":             func() string { z, e := sm2.ZA(id, px, py); return fmt.Sprintf("%x %v", z, e) },
-				"Sign": func() string {
-					a, b, e := sm2.Sign(id, px, py, stream(k), d, msg)
-					return fmt.Sprintf("%x %x %v", a, b, e)
-				},
-				"SignZa": func() string {
-					a, b, e := sm2.SignZa(stream(k), d, za[:], msg)
-					return fmt.Sprintf("%x %x %v", a, b, e)
-				},
-				"SignHashed":   func() string { a, b, e := sm2.SignHashed(stream(k), d, e[:]); return fmt.Sprintf("%x %x %v", a, b, e) },
-				"Verify":       func() string { ok, e := sm2.Verify(id, px, py, msg, sg.R, sg.S); return fmt.Sprint(ok, e) },
-				"VerifyZa":     func() string { ok, e := sm2.VerifyZa(px, py, za[:], msg, sg.R, sg.S); return fmt.Sprint(ok, e) },
-				"VerifyHashed": func() string { ok, e := sm2.VerifyHashed(px, py, e[:], sg.R, sg.S); return fmt.Sprint(ok, e) },
-			}
-			for _, name := range []string{"DerivePublic", "CheckOnCurve", "TestPrivateKey", "ZA", "Sign", "SignZa", "SignHashed", "Verify", "VerifyZa", "VerifyHashed"} {
-				f := calls[name]
-				r.Eval(2)
-				var a, b string
-				kind, m := vx.Try(func() { a = f(); b = f() })
-				cs := map[string]interface{}{"fn": name, "key": ki, "len": l}
-				if kind != "" {
-					r.Violation("buf:sm2:"+name+":panic", m, cs)
+			for oi, order := range orders {
+				id0 := vx.Fill("c10id", l)
+				msg0 := vx.Fill("c10msg", l)
+				k := b32(modN(bi(vx.Fill(fmt.Sprintf("c10k%d", l), 32))))
+				za0, _ := sm2ref.ZA(id0, px0, py0)
+				e0 := sm2ref.E(za0[:], msg0)
+				sg, err := sm2ref.Sign(stream(k), bi(d0), e0[:])
+				if err != nil {
 					continue
 				}
-				if a != b {
-					r.Violation("buf:sm2:"+name+":repeat-differs", fmt.Sprintf("%s: %s then %s", name, a, b), cs)
+				vals := map[string][]byte{"priv": d0, "pubx": px0, "puby": py0, "id": id0, "msg": msg0, "za": za0[:], "e": e0[:], "r": sg.R, "s": sg.S}
+				ar := &c10arena{buf: make([]byte, 0, 2048)}
+				arg := map[string][]byte{}
+				for _, name := range order {
+					arg[name] = ar.add(vals[name])
 				}
-				for _, ar := range args {
-					if !bytes.Equal(ar.b, snap[ar.name]) {
-						r.Violation("buf:sm2:"+name+":modifies-"+ar.name, fmt.Sprintf("%s modified its %s argument", name, ar.name), cs)
-						copy(ar.b, snap[ar.name])
+				ar.buf = append(ar.buf, bytes.Repeat([]byte{0xC3}, 64)...)
+				ar.snap = append([]byte{}, ar.buf...)
+				d, px, py, id, msg, za, e, rr, ss := arg["priv"], arg["pubx"], arg["puby"], arg["id"], arg["msg"], arg["za"], arg["e"], arg["r"], arg["s"]
+				calls := map[string]func() string{
+					"DerivePublic":   func() string { x, y, e := sm2.DerivePublic(d); return fmt.Sprintf("%x %x %v", x, y, e) },
+					"CheckOnCurve":   func() string { return fmt.Sprint(sm2.CheckOnCurve(px, py)) },
+					"TestPrivateKey": func() string { return fmt.Sprint(sm2.TestPrivateKey(d)) },
+					"ZA":             func() string { z, e := sm2.ZA(id, px, py); return fmt.Sprintf("%x %v", z, e) },
+					"Sign":           func() string { a, b, e := sm2.Sign(id, px, py, stream(k), d, msg); return fmt.Sprintf("%x %x %v", a, b, e) },
+					"SignZa":         func() string { a, b, e := sm2.SignZa(stream(k), d, za, msg); return fmt.Sprintf("%x %x %v", a, b, e) },
+					"SignHashed":     func() string { a, b, e := sm2.SignHashed(stream(k), d, e); return fmt.Sprintf("%x %x %v", a, b, e) },
+					"Verify":         func() string { ok, e := sm2.Verify(id, px, py, msg, rr, ss); return fmt.Sprint(ok, e) },
+					"VerifyZa":       func() string { ok, e := sm2.VerifyZa(px, py, za, msg, rr, ss); return fmt.Sprint(ok, e) },
+					"VerifyHashed":   func() string { ok, e := sm2.VerifyHashed(px, py, e, rr, ss); return fmt.Sprint(ok, e) },
+				}
+				want := map[string]string{
+					"DerivePublic": fmt.Sprintf("%x %x <nil>", px0, py0), "CheckOnCurve": "true", "TestPrivateKey": "0",
+					"ZA": fmt.Sprintf("%x <nil>", za0), "Sign": fmt.Sprintf("%x %x <nil>", sg.R, sg.S), "SignZa": fmt.Sprintf("%x %x <nil>", sg.R, sg.S),
+					"SignHashed": fmt.Sprintf("%x %x <nil>", sg.R, sg.S), "Verify": "true <nil>", "VerifyZa": "true <nil>", "VerifyHashed": "true <nil>",
+				}
+				for _, name := range []string{"DerivePublic", "CheckOnCurve", "TestPrivateKey", "ZA", "Sign", "SignZa", "SignHashed", "Verify", "VerifyZa", "VerifyHashed"} {
+					f := calls[name]
+					r.Eval(2)
+					var a, b string
+					kind, m := vx.Try(func() { a = f(); b = f() })
+					cs := map[string]interface{}{"fn": name, "key": ki, "len": l, "order": oi}
+					if kind != "" {
+						r.Violation("buf:sm2:"+name+":panic", m, cs)
+						copy(ar.buf, ar.snap)
+						continue
 					}
+					if a != b {
+						r.Violation("buf:sm2:"+name+":repeat-differs", fmt.Sprintf("%s: first %s then %s", name, a, b), cs)
+					} else if a != want[name] {
+						r.Violation("buf:sm2:"+name+":wrong-with-adjacent-buffers", fmt.Sprintf("%s returned %s, expected %s, when its arguments are adjacent fields of one buffer", name, a, want[name]), cs)
+					}
+					if !bytes.Equal(ar.buf, ar.snap) {
+						first := 0
+						for first < len(ar.buf) && ar.buf[first] == ar.snap[first] {
+							first++
+						}
+						r.Violation("buf:sm2:"+name+":writes-caller-memory", fmt.Sprintf("%s modified the caller's buffer (an argument or the spare capacity behind it) at offset %d; field order %v", name, first, order), cs)
+						copy(ar.buf, ar.snap)
+					}
+					r.Shape(fmt.Sprintf("%s:k%d:l%d:o%d", name, ki, l, oi))
+					r.Sample(cs)
 				}
-				r.Shape(fmt.Sprintf("%s:k%d:l%d", name, ki, l))
-				r.Sample(cs)
 			}
 		}
 	}
